@@ -395,6 +395,18 @@ class Cache(Filter[Iterable[Any], Iterable[Any]]):
         return self._protected
 
     def filter(self, items: Iterable[Any]) -> Iterable[Any]:
+        try:
+            yield from self._filter(items)
+        except (Exception,GeneratorExit):
+            raise
+        except:
+            #A KeyboardInterrupt can arrive between any two steps of reading (say, after a slice has been taken from the
+            #source and before it is in the cache) so we can't know what we hold. The next read starts over.
+            self._cache = None
+            self._iter  = None
+            raise
+
+    def _filter(self, items: Iterable[Any]) -> Iterable[Any]:
         n_slice = self._n_slice
 
         if self._iter is None and self._cache is None:
